@@ -1,6 +1,9 @@
 use crate::internal::{consts, DirEntry, MiniAllocator, ObjType, Timestamp};
 use std::fmt;
 use std::path::{Path, PathBuf};
+#[cfg(cfb_verif_sync)]
+use cfb_verif_sync::{Arc, RwLock};
+#[cfg(not(cfb_verif_sync))]
 use std::sync::{Arc, RwLock};
 use uuid::Uuid;
 use web_time::SystemTime;
